@@ -330,7 +330,9 @@ def drive(mod, cid, tier, seed, a, workdir, t0):
         st = r["status"]
         if st == "held":
             nheld += 1
-            if r.get("nontrivial", True):
+            if r.get("sigs"):
+                sigs.update(r["sigs"])
+            elif r.get("nontrivial", True):
                 sigs.add(r.get("sig") or stable_hash({k: v for k, v in spec.items() if not k.startswith("_")}))
             if r.get("sample") is not None and len(samples) < 6:
                 samples.append(r["sample"])
